@@ -135,6 +135,15 @@ def run(ctx):
             ctx.fail("K5.clamp-arithmetic", "substr|%s|%s" % (xb.key.split("::", 1)[1], what), "substr computes an index with raw integer arithmetic (%s): at the 64-bit extremes it traps (debug) or wraps (release) instead of clamping to the string" % what, where=xb.where(bi, si), fn=xb.key)
         if not raw:
             ctx.ok("K5.clamp-arithmetic", "substr: index arithmetic only through checked_* / saturating_* / min / max / unsigned_abs / try_into (%s)" % cfg, nontrivial=True)
+        # an end before the start is the empty string: failing arms of the checked index arithmetic fall back to
+        # a bound of the string (0 or the length), never to another constant
+        for s in su.calls_path(r"^std::option::Option::<T>::unwrap_or$"):
+            recv = strip_refs(s.body.trace(s.term["args"][0]))
+            dflt = strip_refs(s.body.trace(s.term["args"][1]))
+            if recv[0] == "call" and recv[1] and re.search(r"::checked_(sub|add)$", recv[1]["path"]):
+                is_len = expr_mentions(dflt, lambda y: y[0] == "call" and y[1] and y[1]["path"].endswith("::count"))
+                ctx.check((dflt[0] == "const" and const_value(dflt[1]) == 0) or is_len, "K5.clamp-fallback", "%s falls back to 0 or the string length (%s, %s)" % (recv[1]["path"].rsplit("::", 1)[1], s.where(), cfg),
+                          "when %s fails substr falls back to %s instead of clamping to the string (0 or its length)" % (recv[1]["path"].rsplit("::", 1)[1], show_expr(dflt)), where=s.where(), fn=s.body.key, nontrivial=True)
         ints = [s for s in su.calls_path(r"^serde_json::Number::as_i64$")]
         ctx.check(len(ints) >= 2, "K2.integer-operands", "start and length are read with as_i64 (%s)" % cfg, "%d as_i64 reads" % len(ints), where=sb.where(), fn=sb.key)
 
